@@ -1181,6 +1181,104 @@ def payload_obligation(pkg, H, fam, oid):
     return _obl(oid, True, True, detail, "xlsx_extractor.py", "typestate")
 
 
+# ========================================================================= state kept between calls (policy) ==
+MUTATORS = {"add", "append", "extend", "update", "setdefault", "pop", "popitem", "clear", "remove", "discard", "insert",
+            "appendleft", "__setitem__", "move_to_end"}
+CACHE_DECORATORS = {"lru_cache", "cache", "cached_property", "memoize", "cached"}
+
+
+def runtime_state(pkg, f):
+    """Module-level names (and `Class.attr` paths) of module `f` that some function of the module WRITES at run time: rebinding
+    through `global`, a mutating method call, a subscript / attribute store or `del` on them.  Tables that are only ever read
+    are constants, whatever their type."""
+    m = pkg.mods[f]
+    top = set()
+    for node in m.tree.body:
+        tg = node.targets if isinstance(node, ast.Assign) else ([node.target] if isinstance(node, (ast.AnnAssign, ast.AugAssign)) else [])
+        for t in tg:
+            top |= {n.id for n in ast.walk(t) if isinstance(n, ast.Name)}
+    classes = set(m.classes)
+    written = {}
+
+    def base(e):
+        d = dotted(e)
+        if not d:
+            return None
+        parts = d.split(".")
+        if parts[0] in classes and len(parts) >= 2:
+            return parts[0] + "." + parts[1]
+        return parts[0]
+    for q, node in m.functions.items():
+        glob = {n for g in own_nodes(node) if isinstance(g, ast.Global) for n in g.names}
+        shadow = (set(pkg.bindings(node)) | set(params_of(node))) - glob
+
+        def is_state(b):
+            return b is not None and ((b in top and b not in shadow) or ("." in b and b.split(".")[0] in classes) or b in glob)
+        for n in own_nodes(node):
+            b = None
+            if isinstance(n, ast.Call) and isinstance(n.func, ast.Attribute) and n.func.attr in MUTATORS:
+                b = base(n.func.value)
+            elif isinstance(n, (ast.Subscript, ast.Attribute)) and isinstance(n.ctx, (ast.Store, ast.Del)):
+                b = base(n.value)
+            elif isinstance(n, ast.Name) and isinstance(n.ctx, (ast.Store, ast.Del)) and n.id in glob:
+                b = n.id
+            if is_state(b):
+                written.setdefault(b, []).append(f"{q}:{n.lineno}")
+    return written
+
+
+def state_dependence(pkg, fref, written):
+    """Where function `fref` lets a decision depend on run-time-written module state: the state (or a local computed from it)
+    occurs in a branch / loop / conditional-expression test, or the function is wrapped in a result cache."""
+    f, q = fref
+    node = pkg.fn(fref)
+    out = []
+    if node is None:
+        return out
+    for d in node.decorator_list:
+        nm = (dotted(d.func if isinstance(d, ast.Call) else d) or "").split(".")[-1]
+        if nm in CACHE_DECORATORS:
+            out.append(f"{f}:{d.lineno} {q} is wrapped in `{nm}` (results remembered per argument object)")
+    if not written:
+        return out
+    glob = {n for g in own_nodes(node) if isinstance(g, ast.Global) for n in g.names}
+    shadow = (set(pkg.bindings(node)) | set(params_of(node))) - glob
+
+    def mentions_state(e, tainted):
+        for x in ast.walk(e):
+            if isinstance(x, ast.Name) and ((x.id in written and x.id not in shadow) or x.id in tainted):
+                return x.id
+            if isinstance(x, ast.Attribute):
+                d = dotted(x)
+                if d and ".".join(d.split(".")[:2]) in written:
+                    return ".".join(d.split(".")[:2])
+        return None
+    tainted = set()
+    changed = True
+    while changed:
+        changed = False
+        for name, bs in pkg.bindings(node).items():
+            if name not in tainted and any(b is not None and mentions_state(b, tainted) for b in bs):
+                tainted.add(name)
+                changed = True
+    for n in own_nodes(node):
+        tests = []
+        if isinstance(n, (ast.If, ast.While, ast.IfExp, ast.Assert)):
+            tests.append(n.test)
+        elif isinstance(n, ast.BoolOp):
+            tests.extend(n.values[:-1])
+        elif isinstance(n, ast.comprehension):
+            tests.extend(n.ifs)
+        elif isinstance(n, ast.match_case) and n.guard is not None:
+            tests.append(n.guard)
+        for t in tests:
+            w = mentions_state(t, tainted)
+            if w:
+                out.append(f"{f}:{t.lineno} {q}: the test `{ast.unparse(t)[:60]}` depends on `{w}`, which is written at run time")
+                break
+    return out
+
+
 # ==================================================================================== zip-bomb error propagation ==
 REGISTRY_FILE = "sharepoint2text/parsing/router.py"
 CONTAINER_TYPES = ("xlsx", "docx", "pptx", "xlsm", "docm", "pptm", "odt", "odp", "ods", "odg", "odf", "epub")
@@ -1423,6 +1521,33 @@ def propagation(repo, tier):
         o = ground_obligation(oid, status == "ok", "; ".join(bad_first)[:900], f"{f}:{line}", kind="exc-ensures", definite=False)
         o["vcs"] = len(lst)
         o["replay_hint"] = {"family": "propagate", "file": f.split("/")[-1], "function": q.split(".")[0]}
+        obls.append(o)
+    # the decision for a container does not depend on state kept between calls: no function on the validation path (the
+    # functions the error can leave, private helpers analysed in place included) branches on module- / class-level state that
+    # the module writes at run time, none is wrapped in a result cache
+    def stateless():
+        path = set(bomb)
+        for (fref, k), (_name, _v, frames) in results.items():
+            for (ff, fnode, _call) in frames:
+                for q2, n2 in pkg.mods[ff].functions.items():
+                    if n2 is fnode:
+                        path.add((ff, q2))
+        wcache, found = {}, []
+        for fref in sorted(path):
+            if fref[0] not in wcache:
+                wcache[fref[0]] = runtime_state(pkg, fref[0])
+            found.extend(state_dependence(pkg, fref, wcache[fref[0]]))
+        oid = "C11/package/policy#validation-does-not-depend-on-state-kept-between-calls"
+        o = ground_obligation(oid, not found and len(path) >= 10, "; ".join(found)[:900] or f"{len(path)} functions on the validation path, none "
+                              f"branches on run-time-written module state", "package", kind="policy", definite=False)
+        o["replay_hint"] = {"family": "sequence"}
+        return o
+    try:
+        obls.append(stateless())
+    except Exception as e:  # noqa
+        o = ground_obligation("C11/package/policy#validation-does-not-depend-on-state-kept-between-calls", False,
+                              f"analysis does not handle this shape ({type(e).__name__}: {e})", "package", kind="policy", definite=False)
+        o["replay_hint"] = {"family": "sequence"}
         obls.append(o)
     # every registered ZIP-container extractor is reached by the error
     expected, why = [], ""
